@@ -329,12 +329,52 @@ pub fn run_tamper(args: &Args) -> (u64, u64) {
                 h.into_server(pc, pp, apub, t3);
             }
         }
+        // proofs that agree with the right one on a prefix or suffix only, reversed, constant
+        {
+            let mut variants: Vec<[u8; 20]> = vec![[0u8; 20], [0xFFu8; 20]];
+            for (src, k) in [(m1, 1 + bi % 19), (m1, 19 - bi % 19), (m2, 1 + (bi + 7) % 19), (m2, 10)] {
+                let mut t = src;
+                for x in t.iter_mut().skip(k) { *x = 0; }
+                variants.push(t);
+                let mut t = src;
+                for x in t.iter_mut().take(k) { *x = 0; }
+                variants.push(t);
+            }
+            let mut r = m1; r.reverse(); variants.push(r);
+            let mut r = m2; r.reverse(); variants.push(r);
+            for t in variants {
+                if t != m1 {
+                    let (pc, pp) = clone_proof(&mut h, po, &proof);
+                    h.into_server(pc, pp, apub, t);
+                }
+                if t != m2 {
+                    let cc = h.clone_event(co);
+                    h.verify_server_proof(cc, chal.clone(), t);
+                }
+            }
+        }
         // A bit flips as the server sees them
         for bit in (0..256).step_by(step) {
             let fa = arr32(&flip(&abytes, bit));
             if let Some(fapub) = h.pubkey(fa) {
                 let (pc, pp) = clone_proof(&mut h, po, &proof);
                 h.into_server(pc, pp, fapub, m1);
+            }
+        }
+        // A + N (the same residue, a different 32-byte value: u = H(A | B) changes, so M1 no longer matches)
+        {
+            let mut an = [0u8; 32];
+            let mut carry = 0u16;
+            for i in 0..32 {
+                let t = abytes[i] as u16 + N_LE[i] as u16 + carry;
+                an[i] = t as u8;
+                carry = t >> 8;
+            }
+            if carry == 0 {
+                if let Some(anpub) = h.pubkey(an) {
+                    let (pc, pp) = clone_proof(&mut h, po, &proof);
+                    h.into_server(pc, pp, anpub, m1);
+                }
             }
         }
         // B and salt bit flips as the client sees them; its proof then goes to the server
@@ -462,6 +502,16 @@ pub fn run_reconnect(args: &Args) -> (u64, u64) {
                 "flipData" => h.reconnect_values(s.co, &s.client, chal, None).map(|r| {
                     bitctr += 1;
                     (a16(&flip(&r.challenge_data, (bitctr * 29) % 128)), r.proof)
+                }),
+                "truncProof" => h.reconnect_values(s.co, &s.client, chal, None).and_then(|r| {
+                    // the first k bytes of the good proof, the rest zero (k = 0 is the all-zero proof)
+                    bitctr += 1;
+                    let k = (bitctr * 7) % 20;
+                    let mut t = r.proof;
+                    for x in t.iter_mut().skip(k) {
+                        *x = 0;
+                    }
+                    if t == r.proof { None } else { Some((r.challenge_data, t)) }
                 }),
                 "garbage" => {
                     let mut cd = [0u8; 16];
